@@ -67,7 +67,8 @@ def harness(bd, timeout=1800, ok_codes=(0,), **kw):
     if p.returncode == 3:
         raise vp.ToolError(f"harness watchdog: a run did not finish (possible deadlock in the interner): {' '.join(cmd)}")
     if p.returncode not in ok_codes:
-        raise vp.ToolError(f"harness failed ({p.returncode}): {' '.join(cmd)}\n{(p.stdout or '')[-3000:]}")
+        # the process driving the code under test died (abort, signal): that is data, not a tool error
+        raise vp.SubjectCrash(cmd, p.returncode, (p.stdout or "")[-6000:])
     return p
 
 
@@ -278,7 +279,9 @@ def run(tier, seed):
                     replay_sum[k] += rec[k]
                 continue
             for f in rec["fails"]:
-                ff = f["fail"].get("fresh", f["fail"]) if isinstance(f["fail"], dict) else f["fail"]
+                ff = f["fail"] if isinstance(f["fail"], dict) else {}
+                if isinstance(ff.get("fresh"), dict):
+                    ff = ff["fresh"]     # {"fresh": {failure}}; {"kind": .., "fresh": true} is the failure itself
                 classify(verdict, "replay", ff.get("kind", "harness_unclassified"), f,
                          {"property": PID, "origin": "replay", "case": {"ops": rec["ops"]}, "variant": rec["variant"],
                           "failure": f}, counters)
